@@ -67,14 +67,32 @@ def harness_modules(hdir):
     return sorted(os.path.basename(f)[:-3] for f in glob.glob(os.path.join(hdir, '*.rs')))
 
 
-def gen_registry(hdir):
-    arms = []
+def harness_parent(hdir, m):
+    """`//@parent actions` in the first lines: the module is mounted as a child of crate::actions
+    (so that it can reach that module's private functions); default: child of crate::verif"""
+    src = open(os.path.join(hdir, m + '.rs')).read()
+    mm = re.search(r'^//@parent\s+([\w:]+)\s*$', src, re.M)
+    return mm.group(1) if mm else None
+
+
+def harness_fns(hdir):
+    """[(module, fn name, rust path)] for every `pub fn h_*()` / `pub fn ht_*()`"""
+    out = []
     for m in harness_modules(hdir):
         if m in ('rt', 'st', 'registry', 'mod'):
             continue
         src = open(os.path.join(hdir, m + '.rs')).read()
-        for fn in re.findall(r'^pub fn (h_\w+)\s*\(\s*\)', src, re.M):
-            arms.append('        "%s::%s" => Some(super::%s::%s as fn()),' % (m, fn, m, fn))
+        par = harness_parent(hdir, m)
+        for fn in re.findall(r'^pub fn (ht?_\w+)\s*\(\s*\)', src, re.M):
+            path = ('crate::%s::verif_%s::%s' % (par, m, fn)) if par else ('super::%s::%s' % (m, fn))
+            out.append((m, fn, path))
+    return out
+
+
+def gen_registry(hdir):
+    arms = []
+    for m, fn, path in harness_fns(hdir):
+        arms.append('        "%s" => Some(%s as fn()),' % (fn, path))
     return ('#![allow(missing_docs)]\n/// harness lookup (generated)\npub fn lookup(name: &str) -> Option<fn()> {\n'
             '    match name {\n%s\n        _ => None,\n    }\n}\n' % '\n'.join(arms))
 
@@ -88,8 +106,25 @@ def overlay(scratch, hdir, with_replay_main):
     vdir = os.path.join(base, 'src', 'verif')
     os.makedirs(vdir, exist_ok=True)
     mods = harness_modules(hdir)
+    top = []
     for m in mods:
         shutil.copy(os.path.join(hdir, m + '.rs'), os.path.join(vdir, m + '.rs'))
+        par = harness_parent(hdir, m)
+        if par is None:
+            top.append(m)
+            continue
+        # mount as a child module of crate::<par> (scratch copy only)
+        rel = par.replace('::', '/')
+        cands = [os.path.join(base, 'src', rel + '.rs'), os.path.join(base, 'src', rel, 'mod.rs')]
+        host = [c for c in cands if os.path.exists(c)]
+        if not host:
+            raise RuntimeError('harness %s: parent module %s not found in this tree' % (m, par))
+        host = host[0]
+        updir = os.path.relpath(os.path.join(vdir, m + '.rs'), os.path.dirname(host))
+        with open(host, 'a') as f:
+            f.write('\n#[cfg(any(verif_mir, verif_replay))]\n#[allow(missing_docs, dead_code, unused_imports, unused_variables, unused_mut, clippy::all)]\n'
+                    '#[path = "%s"]\npub mod verif_%s;\n' % (updir, m))
+    mods = top
     with open(os.path.join(vdir, 'registry.rs'), 'w') as f:
         f.write(gen_registry(hdir))
     with open(os.path.join(vdir, 'mod.rs'), 'w') as f:
